@@ -64,10 +64,8 @@ def _seen_default_rng(*a, **kw):
     return _ORIG_DEFAULT_RNG(*a, **kw)
 
 
-def _seen_randomstate(*a, **kw):
-    if _ACTIVE[0] is not None and _from_votekit():
-        _ACTIVE[0].private += 1
-    return _ORIG_RANDOMSTATE(*a, **kw)
+# np.random.RandomState itself is left alone: numpy and scipy test `isinstance(x, np.random.RandomState)` internally, and the
+# library under test does not build one (a private RandomState would still show through the frequency tests)
 
 UNIFORM_MENU = [0.0, 1.0, 0.5]
 RANDOM_MENU = [0.0, 0.999999999, 0.5]
@@ -146,7 +144,6 @@ class Rng:
         _np.random.rand = self._np_rand
         _random.Random = _SeenRandom
         _np.random.default_rng = _seen_default_rng
-        _np.random.RandomState = _seen_randomstate
         self._prev_active = _ACTIVE[0]
         _ACTIVE[0] = self
         self._pyr = _ORIG_RANDOM_CLS(self.seed)
@@ -173,7 +170,6 @@ class Rng:
         _np.random.rand = _ORIG[("np", "rand")]
         _random.Random = _ORIG_RANDOM_CLS
         _np.random.default_rng = _ORIG_DEFAULT_RNG
-        _np.random.RandomState = _ORIG_RANDOMSTATE
         _ACTIVE[0] = self._prev_active
         if self._known is not None and self._fp() != self._known:
             self.unseen += 1
